@@ -6,9 +6,11 @@ import { ATOMS, randomTypeExpr, resetUid, atomNode } from './types.mjs';
 
 export const id = 'C17';
 
-function moduleFor(props, decls, order) {
+function moduleFor(props, decls, order, second = null) {
   const texts = decls.map((d) => d.text);
-  const lit = `{ ${props.map((p, i) => `p${i}${p.optional ? '?' : ''}: ${p.src}`).join('; ')} }`;
+  let lit = `{ ${props.map((p, i) => `p${i}${p.optional ? '?' : ''}: ${p.src}`).join('; ')} }`;
+  // a union of two object types that declare the same props with different types: a value of either type is legal
+  if (second) lit = `${lit} | { ${second.map((p, i) => `p${i}${p.optional ? '?' : ''}: ${p.src}`).join('; ')} }`;
   const inh = `export const INH = [${props.map((p) => `[${p.inhabitants.map((x) => x.js).join(', ')}]`).join(', ')}];`;
   const call = `export const Comp = defineComponent((props: ${lit}) => () => null);`;
   const head = 'import { defineComponent } from "vue";';
@@ -66,6 +68,23 @@ export function* generate({ tier, seed }) {
     const ops = [...new Set(props.flatMap((p) => p.ops.filter((o) => !o.startsWith('atom:'))))].sort().join('+');
     const atoms = [...new Set(props.flatMap((p) => p.ops.filter((o) => o.startsWith('atom:'))))].slice(0, 3).join(',');
     yield emit(props, out.decls, rng.pick(['before', 'before', 'after']), `tree|${ops}|${atoms}`);
+  }
+  // 3b. every prop declared twice (union of two object types): the runtime type covers both declarations
+  const nTwice = tier === 'quick' ? 1500 : 40000;
+  for (let i = 0; i < nTwice; i++) {
+    resetUid();
+    const out = { decls: [] };
+    const k = 1 + rng.int(2);
+    const first = [], second = [], merged = [];
+    for (let j = 0; j < k; j++) {
+      const a = randomTypeExpr(rng, rng.int(3), out), b = randomTypeExpr(rng, rng.int(3), out);
+      const oa = rng.bool(0.3), ob = rng.bool(0.6);
+      first.push({ ...a, optional: oa }); second.push({ ...b, optional: ob });
+      merged.push({ src: `${a.src} /*|*/ ${b.src}`, ctors: [...a.ctors, ...b.ctors.filter((c) => !a.ctors.includes(c))], inhabitants: [...a.inhabitants, ...b.inhabitants], ops: ['declaredTwice', ...a.ops, ...b.ops], optional: oa || ob });
+    }
+    const g = emit(merged, out.decls, 'before', `declaredTwice|${[...new Set(merged.flatMap((p) => p.ops.filter((o) => !o.startsWith('atom:'))))].sort().join('+')}|${i % 97}`);
+    g.src = moduleFor(merged.map((m, j) => ({ ...first[j], inhabitants: m.inhabitants })), out.decls, 'before', second);
+    yield g;
   }
   yield* shadowModules(rng, tier);
 }
